@@ -35,8 +35,74 @@ theorem StrictTotal.asymm {lt : α → α → Bool} (h : StrictTotal lt) {a b : 
   | false => rfl
   | true => have := h.trans a b a hab hba; rw [h.irrefl] at this; cases this
 
+/-- The requirement the standard puts on `Compare` ([alg.sorting]/4): a strict weak ordering —
+    irreflexive, transitive, and incomparability (`equiv`) is transitive.  This is all the members
+    that work through the comparator need. -/
+structure StrictWeak (lt : α → α → Bool) : Prop where
+  irrefl : ∀ a, lt a a = false
+  trans : ∀ a b c, lt a b = true → lt b c = true → lt a c = true
+  incomp_trans : ∀ a b c, lt a b = false → lt b a = false → lt b c = false → lt c b = false →
+    lt a c = false ∧ lt c a = false
+
+/-- `operator==` of the key type agrees with the equivalence the comparator induces: two keys that are
+    not ordered either way are the same key.  NO member of static_set / flat_set depends on it any more (the two
+    that did — `static_set::find(key_type const&)` through `etl::find`, `flat_set::erase(key_type const&)` through
+    `etl::remove` — were repaired, findings F-C09-ss-find-eq / F-C09-fs-erase-key-eq); it remains as the
+    difference between the former hypothesis `StrictTotal` and `StrictWeak`, and as the condition under which
+    the sorted permutation `flat_multiset` builds is unique. -/
+def EquivIsEq (lt : α → α → Bool) : Prop := ∀ a b, lt a b = false → lt b a = false → a = b
+
+theorem StrictWeak.asymm {lt : α → α → Bool} (h : StrictWeak lt) {a b : α} (hab : lt a b = true) :
+    lt b a = false := by
+  cases hba : lt b a with
+  | false => rfl
+  | true => have := h.trans a b a hab hba; rw [h.irrefl] at this; cases this
+
+/-- a strict total order is a strict weak order whose equivalence is equality — and conversely -/
+theorem StrictTotal.toWeak {lt : α → α → Bool} (h : StrictTotal lt) : StrictWeak lt where
+  irrefl := h.irrefl
+  trans := h.trans
+  incomp_trans := by
+    intro a b c h1 h2 h3 h4
+    have e1 := h.total a b h1 h2
+    have e2 := h.total b c h3 h4
+    subst e1; subst e2
+    exact ⟨h.irrefl _, h.irrefl _⟩
+
+theorem StrictTotal.equivIsEq {lt : α → α → Bool} (h : StrictTotal lt) : EquivIsEq lt := h.total
+
+theorem StrictTotal.of {lt : α → α → Bool} (hw : StrictWeak lt) (he : EquivIsEq lt) : StrictTotal lt :=
+  ⟨hw.irrefl, hw.trans, he⟩
+
+/-- Consistency of a transparent comparator with the order of the set ([associative.reqmts]: a key `k`
+    of another type may be looked up when the elements are partitioned w.r.t. `c(x, k)` and `!c(k, x)`,
+    with `c(x, k)` implying `!c(k, x)`): stated against the comparator, so that it holds in every state. -/
+structure HetOk (lt : α → α → Bool) (h : Het α κ) : Prop where
+  below_mono : ∀ k a b, lt a b = true → h.ek b k = true → h.ek a k = true
+  above_mono : ∀ k a b, lt a b = true → h.ke k a = true → h.ke k b = true
+  excl : ∀ k a, h.ek a k = true → h.ke k a = false
+
+/-- what a lookup with the predicates `below x = c(x, key)`, `above x = c(key, x)` needs of the list:
+    it is partitioned w.r.t. `below` and w.r.t. `!above`, and `below` excludes `above` -/
+structure Parted (below above : α → Bool) (l : List α) : Prop where
+  below_mono : l.Pairwise (fun a b => below b = true → below a = true)
+  above_mono : l.Pairwise (fun a b => above a = true → above b = true)
+  excl : ∀ x ∈ l, below x = true → above x = false
+
 /-- strictly ascending w.r.t. the comparator (hence unique) -/
 def Sorted (lt : α → α → Bool) (l : List α) : Prop := l.Pairwise (fun a b => lt a b = true)
+
+theorem parted_het {lt : α → α → Bool} {h : Het α κ} (hh : HetOk lt h) {l : List α} (hs : Sorted lt l) (k : κ) :
+    Parted (fun x => h.ek x k) (fun x => h.ke k x) l :=
+  ⟨List.Pairwise.imp (fun {a b} hab hb => hh.below_mono k a b hab hb) hs,
+   List.Pairwise.imp (fun {a b} hab ha => hh.above_mono k a b hab ha) hs,
+   fun x _ hx => hh.excl k x hx⟩
+
+theorem parted_hom {lt : α → α → Bool} (hw : StrictWeak lt) {l : List α} (hs : Sorted lt l) (k : α) :
+    Parted (fun x => lt x k) (fun x => lt k x) l :=
+  ⟨List.Pairwise.imp (fun {a b} hab hb => hw.trans a b k hab hb) hs,
+   List.Pairwise.imp (fun {a b} hab ha => hw.trans k a b ha hab) hs,
+   fun x _ hx => hw.asymm hx⟩
 
 /-! ### the loop of lower_bound / upper_bound -/
 
